@@ -44,6 +44,7 @@ fn ledger_reset() {
 		l.bad_drops = 0;
 		l.corrupt = 0;
 	});
+	ZCOUNT.with(|c| c.set((0, 0)));
 }
 
 #[derive(Debug, Clone, Copy, PartialEq)]
@@ -52,12 +53,22 @@ struct LedgerState {
 	created: u32,
 	bad_drops: u32,
 	corrupt: u32,
+	z_created: u32,
+	z_dropped: u32,
 }
 
 fn ledger_state() -> LedgerState {
 	LEDGER.with(|l| {
 		let l = l.borrow();
-		LedgerState { live: l.live.iter().filter(|b| **b).count() as u32, created: l.created, bad_drops: l.bad_drops, corrupt: l.corrupt }
+		let (z_created, z_dropped) = ZCOUNT.with(|c| c.get());
+		LedgerState {
+			live: l.live.iter().filter(|b| **b).count() as u32,
+			created: l.created,
+			bad_drops: l.bad_drops,
+			corrupt: l.corrupt,
+			z_created,
+			z_dropped,
+		}
 	})
 }
 
@@ -123,6 +134,65 @@ impl Decode for Tracked {
 }
 
 impl DecodeWithMemTracking for Tracked {}
+
+/// Zero-sized but droppable element (a permit / token): owns no memory, so only a count of
+/// constructions vs drops can see whether it is released exactly once.
+pub struct ZTok;
+const ZMARK: u8 = 0xA6;
+
+thread_local! {
+	static ZCOUNT: std::cell::Cell<(u32, u32)> = const { std::cell::Cell::new((0, 0)) };
+}
+
+impl Drop for ZTok {
+	fn drop(&mut self) {
+		ZCOUNT.with(|c| {
+			let (a, b) = c.get();
+			c.set((a, b + 1));
+		});
+	}
+}
+
+impl Encode for ZTok {
+	fn encode_to<W: Output + ?Sized>(&self, dest: &mut W) {
+		dest.write(&[ZMARK]);
+	}
+}
+
+impl Decode for ZTok {
+	fn decode<I: Input>(input: &mut I) -> Result<Self, Error> {
+		match input.read_byte()? {
+			ZMARK => {
+				ZCOUNT.with(|c| {
+					let (a, b) = c.get();
+					c.set((a + 1, b));
+				});
+				Ok(ZTok)
+			},
+			0x02 => panic!("ztok: scripted panic in element decoder"),
+			_ => Err("ztok: scripted malformed element".into()),
+		}
+	}
+}
+
+impl DecodeWithMemTracking for ZTok {}
+
+fn z() -> ZTok {
+	ZCOUNT.with(|c| {
+		let (a, b) = c.get();
+		c.set((a + 1, b));
+	});
+	ZTok
+}
+
+/// `#[repr(transparent)]` newtype whose zero-sized companion has a fallible decoder.
+#[derive(Encode, Decode, DecodeWithMemTracking)]
+#[repr(transparent)]
+pub struct TZ(Tracked, ZTok);
+
+#[derive(Encode, Decode, DecodeWithMemTracking)]
+#[repr(transparent)]
+pub struct ZT(ZTok, Box<Tracked>);
 
 fn t(p: usize) -> Tracked {
 	Tracked::new((p % 100) as u8)
@@ -255,6 +325,18 @@ pub fn shapes() -> Vec<ShapeOps> {
 	shape!(v; "transparent(Box<[T;2]>)", TTB, 1, TTB(Box::new([t(0), t(1)])));
 	shape!(v; "Box<transparent([T;3])>", Box<TTA>, 1, Box::new(TTA([t(0), t(1), t(2)], std::marker::PhantomData)));
 	shape!(v; "[transparent(T);4]", [TT; 4], 0, std::array::from_fn(|i| TT(t(i))));
+	// zero-sized droppable elements, and transparent newtypes with a fallible zero-sized companion
+	shape!(v; "[Z;4]", [ZTok; 4], 0, std::array::from_fn(|_| z()));
+	shape!(v; "[Z;40]", [ZTok; 40], 0, std::array::from_fn(|_| z()));
+	shape!(v; "Box<[Z;3]>", Box<[ZTok; 3]>, 1, Box::new(std::array::from_fn(|_| z())));
+	shape!(v; "[[Z;2];3]", [[ZTok; 2]; 3], 0, std::array::from_fn(|_| std::array::from_fn(|_| z())));
+	shape!(v; "Vec<Z>", Vec<ZTok>, 1, (0..5).map(|_| z()).collect());
+	shape!(v; "(Z,T,Z)", (ZTok, Tracked, ZTok), 0, (z(), t(0), z()));
+	shape!(v; "[(T,Z);3]", [(Tracked, ZTok); 3], 0, std::array::from_fn(|i| (t(i), z())));
+	shape!(v; "transparent(T,Z)", TZ, 0, TZ(t(0), z()));
+	shape!(v; "Box<transparent(T,Z)>", Box<TZ>, 1, Box::new(TZ(t(0), z())));
+	shape!(v; "[transparent(T,Z);3]", [TZ; 3], 0, std::array::from_fn(|i| TZ(t(i), z())));
+	shape!(v; "Box<transparent(Z,Box<T>)>", Box<ZT>, 2, Box::new(ZT(z(), Box::new(t(0)))));
 	// nested two deep
 	shape!(v; "Vec<[T;3]>", Vec<[Tracked; 3]>, 1, (0..3).map(|i| std::array::from_fn(|j| t(3 * i + j))).collect());
 	shape!(v; "[Vec<T>;4]", [Vec<Tracked>; 4], 1, std::array::from_fn(|i| (0..3).map(|j| t(3 * i + j)).collect()));
@@ -285,7 +367,7 @@ pub struct Case {
 }
 
 fn marker_offsets(b: &[u8]) -> Vec<usize> {
-	b.iter().enumerate().filter(|(_, x)| **x == MARK).map(|(i, _)| i).collect()
+	b.iter().enumerate().filter(|(_, x)| **x == MARK || **x == ZMARK).map(|(i, _)| i).collect()
 }
 
 pub fn run_case(shapes: &[ShapeOps], c: &Case, stats: &mut Stats) -> Result<(), Violation> {
@@ -315,7 +397,7 @@ pub fn run_case(shapes: &[ShapeOps], c: &Case, stats: &mut Stats) -> Result<(), 
 	stats.sample(|| json!({"shape": s.name, "fault": c.fault, "position": c.position, "mode": format!("{:?}", c.mode), "input": hex(&c.input), "constructed": st.created, "outcome": if ok { "ok" } else if panicked { "panic" } else { "err" }}));
 	let describe = || {
 		format!(
-			"shape {} fault {} at position {} mode {:?} input {} -> {}; elements constructed {}, still alive {}, bad drops {}, corrupted {}, heap bytes not returned {}",
+			"shape {} fault {} at position {} mode {:?} input {} -> {}; elements constructed {}, still alive {}, bad drops {}, corrupted {}, heap bytes not returned {}; zero-sized tokens constructed {} dropped {}",
 			s.name,
 			c.fault,
 			c.position,
@@ -326,7 +408,9 @@ pub fn run_case(shapes: &[ShapeOps], c: &Case, stats: &mut Stats) -> Result<(), 
 			st.live,
 			st.bad_drops,
 			st.corrupt,
-			snap.live
+			snap.live,
+			st.z_created,
+			st.z_dropped
 		)
 	};
 	if st.bad_drops > 0 {
@@ -338,6 +422,12 @@ pub fn run_case(shapes: &[ShapeOps], c: &Case, stats: &mut Stats) -> Result<(), 
 	if st.live > 0 {
 		return Err(Violation::new(format!("C10/leaked-element/{}", sanitize(s.name)), describe()));
 	}
+	if st.z_dropped > st.z_created {
+		return Err(Violation::new(format!("C10/double-or-uninit-drop/{}", sanitize(s.name)), describe()));
+	}
+	if st.z_dropped < st.z_created {
+		return Err(Violation::new(format!("C10/leaked-zero-sized-element/{}", sanitize(s.name)), describe()));
+	}
 	if snap.live != 0 {
 		return Err(Violation::new(format!("C10/leaked-memory/{}", sanitize(s.name)), describe()));
 	}
@@ -346,7 +436,7 @@ pub fn run_case(shapes: &[ShapeOps], c: &Case, stats: &mut Stats) -> Result<(), 
 	}
 	if c.fault == "none" && ok {
 		let expect = marker_offsets(&c.input).len() as u32;
-		if st.created != expect {
+		if st.created + st.z_created != expect {
 			return Err(Violation::new(format!("C10/element-count/{}", sanitize(s.name)), describe()));
 		}
 	}
@@ -513,7 +603,7 @@ pub fn run(ctx: &Ctx) -> (Level, Report) {
 	(
 		Level {
 			level: "fault_enumeration",
-			rule: "enumerated fault scripts: 39 container shapes ([T;N] up to 40, Box, Box<[T;N]>, Rc, Arc, Vec, VecDeque, BTreeMap, LinkedList, Option, \
+			rule: "enumerated fault scripts: 50 container shapes (incl. zero-sized droppable elements and transparent newtypes with a fallible zero-sized companion) ([T;N] up to 40, Box, Box<[T;N]>, Rc, Arc, Vec, VecDeque, BTreeMap, LinkedList, Option, \
 Result, tuples, derived struct/enum, repr(transparent) newtypes, two-deep nests) x failing element index (every position) x fault kind {input \
 exhausted at every byte, malformed element, panic in element decoder, depth-limit error at every limit, mem-limit error at every limit 0..=U} + \
 the no-fault script, over slice and unknown-length inputs; plus random multi-fault scripts. Oracle: an instrumented element type with a \
